@@ -70,6 +70,7 @@ Lemma gen_set_skip : forall s old n, Loggers.set_skip s old n = set_skip_ref s o
 Proof. intros. first [reflexivity | unfold Loggers.set_skip, set_skip_ref; repeat (gen_split; gen_inj); try reflexivity; lia]. Qed.
 Lemma gen_with_skip : forall s old n, Loggers.with_skip s old n = with_skip_ref s old n.
 Proof. intros. first [reflexivity | unfold Loggers.with_skip, with_skip_ref; repeat (gen_split; gen_inj); try reflexivity; repeat f_equal; lia]. Qed.
-Lemma gen_with_skip_child : forall newChild withSkip name old n,
-  Loggers.with_skip_child newChild withSkip name old n = with_skip_child_ref newChild withSkip name old n.
+Lemma gen_with_skip_child : forall newChild withSkip sj sc sl se name old lvl js cl items n,
+  Loggers.with_skip_child newChild withSkip sj sc sl se name old lvl js cl items n
+  = with_skip_child_ref newChild withSkip sj sc sl se name old lvl js cl items n.
 Proof. intros. first [reflexivity | unfold Loggers.with_skip_child, with_skip_child_ref, skip_child_name; rewrite <- ?app_assoc; reflexivity]. Qed.
